@@ -571,3 +571,49 @@ theorem pubRoom_seenOf_other (a : Acc) (b : Nat) (r : String) (am : AMsg)
     exact procClient_seenOf_other a l am hj hl k
 
 end SigModel.Hub
+
+namespace SigModel.Hub
+
+/-- The participants list sent after an internal / virtual session came or went changes no view. -/
+theorem publishUsers_seenOf (a : Acc) (b : Nat) (r : String) (k : Nat) :
+    seenOf (publishUsersChangedWithInternal a b r).h k = seenOf a.h k := by
+  unfold publishUsersChangedWithInternal
+  cases a.h.rooms b r with
+  | none => rfl
+  | some rm =>
+    dsimp only
+    split
+    · rfl
+    · exact pubRoom_seenOf_other a b r _ (fun ss e => by cases e) (fun ss e => by cases e) k
+
+/-- `roomRemoveSession_views` for every kind of leaving member (an internal client's leave is followed by a
+participants list, a virtual session's by an update of the room's user list: neither touches a view). -/
+theorem roomRemoveSession_views_any (a : Acc) (b : Nat) (r : String) (s : Nat) (kind : Kind) (rm : Room)
+    (hrm : a.h.rooms b r = some rm) (hs : s ∈ rm.members)
+    (hn : (a.h.roomL b r).Nodup) (hl : ∀ l ∈ a.h.roomL b r, Listens a.h l)
+    (hv : ∀ l ∈ a.h.roomL b r, ∀ t, t ∈ seenOf a.h l ↔ t ∈ rm.members) :
+    ∀ l ∈ a.h.roomL b r, ∀ t, t ∈ seenOf (roomRemoveSession a b r s kind).h l ↔ t ∈ removeL rm.members s := by
+  intro l hl' t
+  have hc : rm.members.contains s = true := by simpa using hs
+  have key : ∀ (h1 : Hub), h1.sess = a.h.sess → h1.roomL = a.h.roomL →
+      (t ∈ seenOf (pubRoom { a with h := h1 } b r (.msg (.leave [s]))).h l ↔ t ∈ removeL rm.members s) := by
+    intro h1 e1 e2
+    have hn1 : (h1.roomL b r).Nodup := by rw [e2]; exact hn
+    have hl1 : ∀ k ∈ h1.roomL b r, Listens h1 k := by
+      intro k hk; rw [e2] at hk
+      obtain ⟨x, hx, r'⟩ := hl k hk
+      exact ⟨x, by rw [e1]; exact hx, r'⟩
+    obtain ⟨p1, -⟩ := pubRoom_event { a with h := h1 } b r (.leave [s]) (Or.inr ⟨[s], rfl⟩) hn1 hl1
+    have := p1 l (by rw [e2]; exact hl') t
+    rw [this]
+    simp only [viewAfter, seenOf, e1, List.mem_singleton]
+    have := hv l hl' t
+    simp only [seenOf] at this
+    rw [this, mem_removeL]
+  unfold roomRemoveSession
+  simp only [hrm, hc, Bool.not_true, Bool.false_eq_true, ↓reduceIte]
+  split <;> split <;> first
+    | (rw [publishUsers_seenOf]; exact key _ rfl rfl)
+    | exact key _ rfl rfl
+
+end SigModel.Hub
